@@ -167,6 +167,39 @@ type RunSpec struct {
 	Ref           *RefPeer        `json:"ref,omitempty"`
 	Close         *CloseSpec      `json:"close,omitempty"`
 	Socks         *SocksSpec      `json:"socks,omitempty"`
+	Reg           *RegSpec        `json:"reg,omitempty"`
+}
+
+// RegSpec drives serveruser.Registry under a cooperative scheduler (C07).
+type RegSpec struct {
+	Universe  []RUser  `json:"universe"`  // every credential that exists in this run
+	Sets      [][]int  `json:"sets"`      // user-set versions: indices into Universe (no two with the same name)
+	Mandatory bool     `json:"mandatory"` // initial hint-mandatory flag
+	Sources   []string `json:"sources"`   // source IPs; "collide" entries are replaced by addresses that share source 0's cache bucket
+	Segs      []RSeg   `json:"segs"`
+	Actors    [][]ROp  `json:"actors"`
+}
+
+type RUser struct {
+	Name      string `json:"name"`
+	Password  string `json:"password"`
+	ShareWith int    `json:"shareWith"` // >=0: this user is configured with the hashed credential of Universe[ShareWith]
+}
+
+type RSeg struct {
+	Cred int `json:"cred"` // Universe index whose key encrypts the segment (-1: a key nobody has)
+	Hint int `json:"hint"` // Universe index whose NAME the hint is computed for; -1: the hint of a name nobody has; -2: random bytes
+}
+
+type ROp struct {
+	Op      string `json:"op"` // discover | setusers | mandatory | sleep
+	Seg     int    `json:"seg,omitempty"`
+	Source  int    `json:"source,omitempty"`
+	Current bool   `json:"current,omitempty"` // requireCurrent (the TCP path) or not (the UDP path)
+	Record  bool   `json:"record,omitempty"`  // record the authentication into the source cache afterwards
+	Set     int    `json:"set,omitempty"`
+	On      bool   `json:"on,omitempty"`
+	Us      int64  `json:"us,omitempty"`
 }
 
 // SocksSpec drives the production server stack (protocol.Mux + socks5.Server
